@@ -89,6 +89,108 @@ fn check_pattern(p: &str, scope_i: usize) -> Verdict {
     Ok(())
 }
 
+
+// ------------------------------------------------------------------------------ re-entrant callbacks
+
+/// A chain of records (point -> equip -> site ...): record i has `disMacro` = pats[i], a `navName`
+/// and a `parentRef`; the last one has a plain `dis`. The value resolver answers `parentRef` with
+/// the display name of the parent, computed by calling the library again from inside the callback
+/// (the usual way to resolve "$equipRef $navName"); the localiser expands its translations with
+/// dis_macro as well. Reference = the same recursion over the reference scanner.
+fn nested_world(pats: &[String]) -> Vec<Tags> {
+    let n = pats.len();
+    let mut recs: Vec<Tags> = (0..n)
+        .map(|i| {
+            mk_tags(&[
+                ("disMacro", V::str(&pats[i])),
+                ("navName", V::str(&format!("N{i}"))),
+                ("a", V::str(&format!("<A{i}>"))),
+                ("b", V::numu(i as f64, "kW")),
+                ("parentRef", V::Ref(format!("r{}", i + 1), None)),
+            ])
+        })
+        .collect();
+    recs.push(mk_tags(&[("dis", V::str("Site $a")), ("navName", V::str("top"))]));
+    recs
+}
+
+fn nested_localise_ref(k: &str, world: &[Tags], i: usize) -> Option<String> {
+    match k {
+        "nested" => Some(nested_ref(world, i + 1)),
+        "expand" => Some(expand_macro("[$navName|$<key>]", &|t| world[i].iter().find(|(n, _)| n == t).map(|(_, v)| v.clone()), &localise, &other_text)),
+        other => localise(other),
+    }
+}
+
+fn nested_ref(world: &[Tags], i: usize) -> String {
+    if i >= world.len() {
+        return String::new();
+    }
+    let rec = &world[i];
+    let get = |k: &str| -> Option<V> {
+        if k == "parentRef" && i + 1 < world.len() {
+            return Some(V::Str(nested_ref(world, i + 1)));
+        }
+        rec.iter().find(|(n, _)| n == k).map(|(_, v)| v.clone())
+    };
+    match rec.iter().find(|(n, _)| n == "dis") {
+        Some((_, V::Str(s))) => s.clone(),
+        _ => match rec.iter().find(|(n, _)| n == "disMacro") {
+            Some((_, V::Str(p))) => expand_macro(p, &get, &|k| nested_localise_ref(k, world, i), &other_text),
+            _ => String::new(),
+        },
+    }
+}
+
+fn nested_lib(world: &[Dict], i: usize) -> String {
+    if i >= world.len() {
+        return String::new();
+    }
+    let rec = &world[i];
+    if let Some(Value::Str(s)) = rec.get("dis") {
+        return s.value.clone();
+    }
+    let pat = match rec.get("disMacro") {
+        Some(Value::Str(s)) => s.value.clone(),
+        _ => return String::new(),
+    };
+    dis_macro(
+        &pat,
+        |k| {
+            if k == "parentRef" && i + 1 < world.len() {
+                return Some(Cow::Owned(Value::make_str(&nested_lib(world, i + 1))));
+            }
+            rec.get(k).map(Cow::Borrowed)
+        },
+        |k| match k {
+            "nested" => Some(Cow::Owned(nested_lib(world, i + 1))),
+            "expand" => Some(Cow::Owned(dis_macro("[$navName|$<key>]", |t| rec.get(t).map(Cow::Borrowed), |t| localise(t).map(Cow::Owned)).to_string())),
+            // a callback that uses other display entry points of the library
+            other => localise(other).map(|t| {
+                let _ = rec.dis();
+                let _ = dict_to_dis(rec, &|t| localise(t).map(Cow::Owned), None);
+                Cow::Owned(t)
+            }),
+        },
+    )
+    .to_string()
+}
+
+fn check_nested(pats: &[String]) -> Verdict {
+    let world = nested_world(pats);
+    let lib_world: Vec<Dict> = world.iter().map(lib_dict).collect();
+    let want = nested_ref(&world, 0);
+    let got = guarded(|| nested_lib(&lib_world, 0)).map_err(|m| ("nested-call-panic".to_string(), m))?;
+    if got != want {
+        return Err(("nested-call".into(), format!("patterns {pats:?}: library {got:?}, reference {want:?}")));
+    }
+    Ok(())
+}
+
+const NESTED_PATS: &[&str] = &[
+    "$parentRef $navName", "${parentRef}/${navName}", "$navName", "$<nested> $navName", "$<expand>", "$parentRef $<expand> $a", "$<key> $parentRef $b", "$parentRef$parentRef", "$<nested>$<nested>", "$zz $parentRef", "plain", "$<dollar> $parentRef",
+];
+
 const TAGS: [&str; 8] = ["dis", "disMacro", "disKey", "name", "def", "tag", "navName", "id"];
 
 fn tag_value(tag: &str, variant: usize) -> V {
@@ -215,7 +317,7 @@ fn patterns_of_len(len: usize, idx: usize) -> String {
 pub fn run(tier: Tier) -> i32 {
     let mut run = Run::new("C20", tier, "exploration");
     let maxlen = tier.pick(6usize, 7);
-    run.rule = format!("all 5^8 records (each display tag absent / three values of different kinds / present but empty) with and without default and through Dict::dis(); every macro pattern of length <= {maxlen} over {{$ {{ }} < > a b B 1 _ space é}} against 5 scopes (incl. values whose text contains variables, empty values, nine kinds) and a localiser (one translation contains variables); every one of 22 variable forms between every pair of 106 characters (all printable ASCII, line breaks, 2-/3-/4-byte and combining characters) or none, two variables around every character, all triples of variable forms in three layouts; reference = hand-written scanner; non-trivial = pattern containing '$' / record with >= 1 display tag");
+    run.rule = format!("all 5^8 records (each display tag absent / three values of different kinds / present but empty) with and without default and through Dict::dis(); every macro pattern of length <= {maxlen} over {{$ {{ }} < > a b B 1 _ space é}} against 5 scopes (incl. values whose text contains variables, empty values, nine kinds) and a localiser (one translation contains variables); every one of 22 variable forms between every pair of 106 characters (all printable ASCII, line breaks, 2-/3-/4-byte and combining characters) or none, two variables around every character, all triples of variable forms in three layouts; chains of 1-3 records whose value resolver and localiser call dis_macro / dict_to_dis / Dict::dis again from inside the callback (every tuple of 12 patterns per level; reference = the same recursion over the reference scanner); reference = hand-written scanner; non-trivial = pattern containing '$' / record with >= 1 display tag");
     run.assume("text of a value that is neither Str nor Ref is Value::to_string() (delegated to the library; C20 is about which tag and which substitution)");
     run.assume("macro names are [a-z][A-Za-z0-9_]* taken greedily; $<key> has a non-empty key without '>'");
     crate::engine::quiet_panics();
@@ -294,6 +396,27 @@ pub fn run(tier: Tier) -> i32 {
         }
     });
     run.absorb(l);
+    // re-entrant callbacks: chains of 1..3 records whose resolver / localiser call the library
+    // again from inside the callback (every tuple of 12 patterns per level)
+    {
+        let np = NESTED_PATS.len();
+        let l = par_for(np * np * np, |k, local| {
+            let idx = [k % np, (k / np) % np, k / (np * np)];
+            for depth in 1..=3usize {
+                if idx[depth..].iter().any(|&x| x != 0) {
+                    continue;
+                }
+                let pats: Vec<String> = idx[..depth].iter().map(|&i| NESTED_PATS[i].to_string()).collect();
+                local.eval();
+                local.nontrivial(&format!("nested{pats:?}"));
+                local.count("nested-chains");
+                if let Err((s, d)) = check_nested(&pats) {
+                    local.fail(&s, json!({"nested": pats}), d);
+                }
+            }
+        });
+        run.absorb(l);
+    }
     // history independence: one pattern after another (all ordered pairs of 66 patterns x 5 scopes)
     {
         let mut pats: Vec<String> = VARS.iter().map(|v| format!("[{v}] x")).collect();
@@ -306,6 +429,7 @@ pub fn run(tier: Tier) -> i32 {
         run.absorb(l);
     }
     run.require(run.counter("neighbour-patterns") > 100_000, "neighbour sweep too small");
+    run.require(run.counter("nested-chains") > 1_000, "nested chains not explored");
     for t in TAGS {
         run.require(run.counter(&format!("decisive:{t}")) > 0, &format!("tag {t} never decisive"));
     }
@@ -317,6 +441,10 @@ pub fn replay(case: &J) -> Verdict {
     if let Some(p) = case["pattern"].as_str() {
         let s = case["scope"].as_u64().unwrap_or(0) as usize;
         return check_pattern(p, s).map_err(|(stage, d)| (format!("{stage}:{}", pattern_class(p)), d));
+    }
+    if let Some(a) = case["nested"].as_array() {
+        let pats: Vec<String> = a.iter().map(|x| x.as_str().unwrap_or("").to_string()).collect();
+        return check_nested(&pats);
     }
     match from_json(&case["record"]) {
         V::Dict(t) => check_record(&t),
